@@ -66,7 +66,7 @@ func c18st(r *Run) *c18St {
 var c18ExtraTokens = []string{"DAI", "USDC"}
 
 func init() {
-	RegisterEngine([]string{"C18"}, func() Engine { return C18Engine{} })
+	RegisterEngine([]string{"C18-main"}, func() Engine { return C18Engine{} })
 	levels["C18"] = levelInfo{"fault_enumeration", "seeded generation of bridge/governance histories (one run = one PRNG seed = one world + one sequence of steps); at every tolerated-failure boundary reached the failure point is ENUMERATED on branches of the same committed state: (b) inbound bridge call: callee mode words {no action, every single action, all actions} x endings {revert, revert with data, invalid opcode, endless loop}, the BridgeCallMaxGasLimit ladder over a callee that would otherwise succeed (every limit = one cut point), every token pair of the call disabled in turn (first, middle, last of up to four tokens), receiver contract / EOA / memo send-call-to, refund address equal / different / unfunded, execution through the keeper and through an EVM message to the executeClaim precompile; (c) proposals of n messages of one type with the invalid (or reverting / out-of-gas contract call) message at every position j, against the invalid message alone and a message-less proposal, and scenarios of 2-3 proposals ending in the SAME block in the orders {fails-late, passes, fails-first} (LP, PL, LPF, LFP, PLF, PFL, FLP, FPL, LLP, LPP, LPL, PLP) against the same block with the failing proposals failing first / replaced by message-less ones, on branches and through real blocks; (a) every failing attestation handler (existing bridge token, FX with wrong decimals, unknown oracle-set nonce) against a claim whose handler only parks a pending record; plus the same inputs through real transactions in the committed history. Every pair (failing variant, reference failure) is one evaluation of the equal-stores oracle; every failing variant one evaluation of the designated-outcome-only oracle. distinct = hash of (step shapes, tx success); non-trivial = at least one late-failure vs first-failure store comparison was made"}
 }
 
